@@ -136,7 +136,7 @@ pub enum Alpha {
 }
 
 const XML_SPICE: &[&str] = &[
-    "<", ">", "&", "\"", "'", " ", "  ", "\t", "\n", "]]>", "<!--", "-->", "&amp;", "&#x41;", "é", "漢", "😀", "\u{85}", "\u{2028}", "/", "%", "+", "?", "#", "=",
+    "<", ">", "&", "\"", "'", " ", "  ", "\t", "\n", "\r", "\r\n", "]]>", "<!--", "-->", "&amp;", "&#x41;", "é", "漢", "😀", "\u{85}", "\u{2028}", "/", "%", "+", "?", "#", "=",
 ];
 const QUERY_SPICE: &[&str] = &[
     " ", "+", "%", "&", "=", "?", "#", "/", "//", "..", ".", "é", "漢", "😀", "~", "*", "'", "(", ")", "!", ":", "@", ",", ";", "%2F", "%25", "\"", "<", ">", "\\",
